@@ -395,6 +395,8 @@ def build(tier, seed):
                              "relative 1e-15 alone and inside sums / products / function arguments"))
     obs.append(vprop.enum_ob("C19.refuse.enum", F_OPS[:1] + [TR + ":translate_function_call"], lambda: [0], _check_refuse,
                              "constructs outside the supported set are refused with an error (or translated value-preservingly), unknown function names are rejected by the dialect"))
+    from vfw import lean
+    obs.append(lean.prelude_ob('C19', 'fold congruence and unfolding for sums / products, a / b = a * b^-1, x^(-1), a - (-b)'))
     obs.append(vprop.enum_ob("C19.natkey.enum", [SO + ":natural_key", SO + ":natural_key_revlex"], lambda: ["beta_", "x", "theta_2_", "q"], _check_natkey,
                              "natural keys order names by embedded integers numerically for digit groups of 1..6 digits (beta_2 < beta_10 < beta_10000), several groups lexicographically"))
     return obs
